@@ -1,4 +1,6 @@
 def run(ctx):
-    from . import factorize_proofs
+    from . import factorize_proofs, finalize_proofs
 
-    return factorize_proofs.run(ctx, ["range"])
+    a = factorize_proofs.run(ctx, ["range"])
+    b = finalize_proofs.run(ctx, "C05")
+    return a + " " + b
